@@ -196,7 +196,7 @@ pub fn rr<S: Src, const K: usize>(s: &mut S) {
     }
     c = c.padding(padding);
     same_output::<S, _, _, 72>(s, &b, &c);
-    vcover!(nb >= 2 && padding > 0, "blocks in insertion order with padding set in between");
+    vcover!(nb >= 1 && padding > 0, "a block and padding set");
     forget((b, c));
 }
 
@@ -390,7 +390,7 @@ pub fn sdes<S: Src, const K: usize>(s: &mut S) {
 }
 
 /// Owned and borrowed SDES items produce the same bytes (PRIV prefix included).
-pub fn sdes_owned<S: Src>(s: &mut S) {
+pub fn sdes_owned<S: Src, const WHICH: usize>(s: &mut S) {
     let v = Text::<4>::draw(s, 4);
     let pre = Blob::<3>::draw(s, 3);
     let t = s.u8();
@@ -398,9 +398,8 @@ pub fn sdes_owned<S: Src>(s: &mut S) {
     let ssrc = s.u32();
     let pad = s.u8();
     s.assume(pad <= 8);
-    let which = s.upto(2);
     let mk = || SdesItem::builder(t, v.as_str()).prefix(pre.as_bytes());
-    let chunk = match which {
+    let chunk = match WHICH {
         0 => SdesChunk::builder(ssrc).add_item_owned(mk()),
         1 => SdesChunk::builder(ssrc).add_item(mk().into_owned()),
         _ => SdesChunk::builder(ssrc).add_item(mk().into_owned().into_owned()),
@@ -576,7 +575,9 @@ common::register! {
     q_app = app::<_, 3> => 2,
     q_unknown = unknown::<_, 3> => 2,
     t_sdes_2 = sdes::<_, 2> => 2,
-    q_sdes_owned = sdes_owned => 2,
+    q_sdes_add_item_owned = sdes_owned::<_, 0> => 2,
+    q_sdes_into_owned = sdes_owned::<_, 1> => 2,
+    t_sdes_into_owned_twice = sdes_owned::<_, 2> => 2,
     q_rpsi = rpsi::<_, 3> => 2,
     q_feedback = feedback::<_, 3> => 2,
     q_transport_feedback = transport_feedback::<_, 2> => 2,
